@@ -2,7 +2,9 @@
 Phase 6c of the Rust → Lean translation (tools/rs2lean6c.py, Generated/Translated6c.lean): the agreement theorems of
 the renderer (`to_string`, `to_pretty_string`, `container_to_string`, `scalar_to_string`,
 `PrettyOpts::generate_indent`; I1–I6) and of the serde bridge (`to_serde_json`, `to_serde_json_object`,
-`containter_to_serde_json`, `containter_to_serde_json_object`, `scalar_to_serde_json`; I7–I9).
+`containter_to_serde_json`, `containter_to_serde_json_object`, `scalar_to_serde_json`; I7–I9) and of the two editors
+phase 4 left over (`array_overlap_jsonb`, I10; `object_insert_jsonb`, I11–I12) and of the `strip_nulls` family
+(`strip_nulls_array`, `strip_nulls_object`, `strip_nulls_jsonb`; I13–I15), `build_array` (I16) and `build_object` (I17).
 See tools/RS2LEAN.md, section "Phase 6c".
 -/
 import JsonbModel.Proofs.TranslatedAgreeI1
@@ -14,3 +16,11 @@ import JsonbModel.Proofs.TranslatedAgreeI6
 import JsonbModel.Proofs.TranslatedAgreeI7
 import JsonbModel.Proofs.TranslatedAgreeI8
 import JsonbModel.Proofs.TranslatedAgreeI9
+import JsonbModel.Proofs.TranslatedAgreeI10
+import JsonbModel.Proofs.TranslatedAgreeI11
+import JsonbModel.Proofs.TranslatedAgreeI12
+import JsonbModel.Proofs.TranslatedAgreeI13
+import JsonbModel.Proofs.TranslatedAgreeI14
+import JsonbModel.Proofs.TranslatedAgreeI15
+import JsonbModel.Proofs.TranslatedAgreeI16
+import JsonbModel.Proofs.TranslatedAgreeI17
